@@ -1979,3 +1979,17 @@ func pinnedTypeNames() map[string]bool {
 	}
 	return pinnedTypes
 }
+
+
+// pinnedAllPresent: every function of the pinned tree is still there (under its name, or renamed). Functions that were
+// merged or collapsed away mean the edit did more than cut helpers out of pinned functions; the expanded form is then
+// no basis for additional reports.
+func pinnedAllPresent(p *Prog) bool {
+	v := pinnedView(p)
+	n := 0
+	for k := range v {
+		_ = k
+		n++
+	}
+	return n >= len(pinnedSigs)
+}
